@@ -539,7 +539,9 @@ pub fn gen_c16(tier: &str, seed: u64, out: &mut Vec<String>) {
                     // two TLS headers / TLS without a matching area
                     let v = spec.segs[0].vaddr;
                     for _ in 0..2 {
-                        spec.segs.push(Seg { ptype: 7, flags: 4, vaddr: if rng.chance(1, 2) { v } else { v + 8 }, filesz: 0, memsz: rng.below(0x3000), align: 8, content: vec![], offset: 0, fixed_offset: true });
+                        // (also sizes that leave 64 bits when added to an offset inside the area)
+                        let tm = if rng.chance(1, 3) { *rng.pick(&[u64::MAX, u64::MAX - 7, u64::MAX - 0xf, 1 << 63]) } else { rng.below(0x3000) };
+                        spec.segs.push(Seg { ptype: 7, flags: 4, vaddr: if rng.chance(1, 2) { v } else { v + *rng.pick(&[8u64, 0x10, 1]) }, filesz: 0, memsz: tm, align: 8, content: vec![], offset: 0, fixed_offset: true });
                     }
                 }
                 5 => {
